@@ -62,6 +62,12 @@ ex:half a sh:SHACLFunction ; sh:parameter [ sh:path ex:op1 ; sh:datatype xsd:int
   sh:prefixes ex:prefixes ; sh:select "SELECT ($op1 / 2 AS ?result) WHERE { }" .
 ex:FK a sh:NodeShape ; sh:targetClass ex:P ; sh:property [ sh:path ex:n ; sh:maxInclusive 10 ] .
 """,
+    # datatypes rdflib itself has no converter for (owlrl brings its own while it runs an inference)
+    "owlrl_types": """
+ex:GY a sh:NodeShape ; sh:targetClass ex:P ;
+  sh:property [ sh:path ex:year ; sh:datatype xsd:gYear ] ; sh:property [ sh:path ex:nm ; sh:datatype xsd:NCName ] ;
+  sh:property [ sh:path ex:ym ; sh:datatype xsd:gYearMonth ; sh:maxCount 1 ] .
+""",
     # literal forms whose reading depends on rdflib's global parsing switches
     "literals": """
 ex:LS a sh:NodeShape ; sh:targetClass ex:P ;
@@ -284,6 +290,17 @@ def gen_themed(rng, theme):
     maybe_fail = lambda: failing_call(rng) if rng.random() < 0.4 else []
     if theme == "stale_data":
         ops.append(("alloc", "S0", "shapes", SHAPES["bnodes"]))
+        if rng.random() < 0.4:
+            # the caller's own graph object is expanded in place by RDFS pre-inference, edited, and validated again with the same options:
+            # what the edit entails (a new instance of the target class through rdfs:domain) has to be inferred again
+            io_ = {"inplace": True, "inference": "rdfs"}
+            ops.append(("call", "validate", ("slot", "D0"), ("slot", "S0"), None, dict(io_), None))
+            ops.append(("edit_data", "domain", rng.randrange(1000)))
+            if rng.random() < 0.5:
+                ops.append(("edit_data", rng.choice(["city", "street", "subclass"]), rng.randrange(1000)))
+            ops += maybe_fail()
+            ops.append(("call", "validate", ("slot", "D0"), ("slot", "S0"), None, dict(io_), None))
+            return ops
         ops.append(first())
         ops += [("edit_data", rng.choice(["city", "street", "drop_addr", "subclass", "subclass"]), rng.randrange(1000)) for _ in range(rng.choice([1, 2, 3]))]
         if rng.random() < 0.7:
@@ -339,6 +356,21 @@ def gen_themed(rng, theme):
                 ops.append(("realloc", "S0", "shapes", SHAPES["pattern"].replace('sh:flags "i"', rng.choice(['', 'sh:flags "x"', 'sh:flags "i"']).strip() or 'sh:minLength 1')))
             ops += maybe_fail() if rng.random() < 0.2 else []
             ops.append(plain() if rng.random() < 0.7 else ("call", "validate", ("slot", "D0"), ("text", PFX + SHAPES["pattern"].replace(' ; sh:flags "i"', "")), None, {}, None))
+    elif theme == "datatype_table":
+        # a call that runs an RDFS / OWL-RL pre-inference (owlrl installs its own literal converters while it expands), then a call that
+        # PARSES literals of datatypes only owlrl knows how to check: they are read as a fresh process reads them
+        odd = DATA + 'ex:a ex:year "20x0"^^xsd:gYear ; ex:nm "not an nc name"^^xsd:NCName ; ex:ym "2020-13"^^xsd:gYearMonth .\nex:b ex:year "1999"^^xsd:gYear ; ex:nm "fine"^^xsd:NCName .\n'
+        ops.append(("alloc", "S0", "shapes", SHAPES["owlrl_types"]))
+        inf_ = rng.choice(["rdfs", "owlrl", "both"])
+        if rng.random() < 0.5:
+            ops.append(("call", "validate", ("slot", "D0"), ("slot", "S0"), None, {"inference": inf_}, None))
+        else:
+            ops.append(("alloc", "S1", "shapes", SHAPES["advanced"]))
+            ops.append(("call", "rules", ("slot", "D0"), ("slot", "S1"), None, {"inference": inf_}, None))
+        ops += maybe_fail()
+        ops.append(("call", "validate", ("text", PFX + odd), ("slot", "S0"), None, {}, None))
+        if rng.random() < 0.5:
+            ops.append(("call", "validate", ("text", PFX + odd), ("text", PFX + SHAPES["owlrl_types"]), None, {"inference": rng.choice(["none", inf_])}, None))
     elif theme == "function_kinds":
         # a call whose shapes graph declares functions of the generic kind, then (maybe after a failure) a call that USES SPARQL functions
         ops.append(("alloc", "S0", "shapes", SHAPES["function_kinds"]))
@@ -395,7 +427,7 @@ def gen_themed(rng, theme):
     return ops
 
 
-THEMES = ["stale_data", "stale_shapes", "stale_validator", "reuse", "globals", "modes", "imports", "pattern", "baked", "function_kinds", "mixed", "mixed"]
+THEMES = ["stale_data", "stale_shapes", "stale_validator", "reuse", "globals", "modes", "imports", "pattern", "baked", "function_kinds", "datatype_table", "mixed", "mixed"]
 
 
 def gen_history(seed, index):
@@ -504,6 +536,15 @@ def edit_data(g, what, k):
                 g.remove(t)
             if k % 3:
                 g.add((b, p, Literal("%s %d" % (what, k))))
+        return
+    if what == "domain":
+        # an instance of the target class by entailment only: ex:teaches rdfs:domain ex:P, and somebody who teaches
+        from rdflib.namespace import RDFS
+        e_ = EX["e%d" % (k % 2)]
+        g.add((EX.teaches, RDFS.domain, EX.P))
+        g.add((e_, EX.teaches, EX.course))
+        g.add((e_, EX.tag, Literal("p")))
+        g.add((e_, EX.tag, Literal("q")))
         return
     if what == "subclass":
         # the class hierarchy of the data changes under the same graph object: a further subclass of the target class with an
